@@ -1996,3 +1996,31 @@ def r_family_preserved(ctx, f: FunctionInfo, name: str, what="member", rule="R-E
                f"{what}'s position (output blocks (i, j), paired weights) no longer refers to the caller's {what} i", bad[0], chain=chain)
     else:
         ctx.ob(rule, f, key, True, f"{sites} re-binding(s), none selective", chain=chain)
+
+
+# ---------------------------------------------------------------------------------------------
+def r_index_array_dtype(ctx, f: FunctionInfo, pname: str, rule="R-KIND", chain=None):
+    """`np.array([])` is a float64 array and cannot index anything.  A list parameter that names a SET of positions (possibly empty) and
+    is later used as an index array has to be converted with an integer dtype."""
+    if f.param(pname) is None:
+        return
+    conv = [n for n in walk_no_nested(f.node) if isinstance(n, ast.Assign) and len(n.targets) == 1 and isinstance(n.targets[0], ast.Name) and n.targets[0].id == pname
+            and isinstance(n.value, ast.Call) and unparse(n.value.func) in ("np.array", "numpy.array", "np.asarray", "numpy.asarray") and n.value.args
+            and isinstance(n.value.args[0], ast.Name) and n.value.args[0].id == pname]
+    if not conv:
+        return
+    n = conv[0]
+    # used as an index array AFTER the conversion (x[.., p] with p itself an element of the subscript, not p[0])
+    used = any(isinstance(x, ast.Subscript) and getattr(x, "lineno", 0) > n.lineno and
+               any(isinstance(y, ast.Name) and y.id == pname for y in ([x.slice] + (list(x.slice.elts) if isinstance(x.slice, ast.Tuple) else [])))
+               for x in walk_no_nested(f.node))
+    if not used:
+        return
+    typed = any(kw.arg == "dtype" and "int" in unparse(kw.value) for kw in n.value.keywords) or (len(n.value.args) > 1 and "int" in unparse(n.value.args[1]))
+    later = any(isinstance(x, ast.Call) and isinstance(x.func, ast.Attribute) and x.func.attr == "astype" and isinstance(x.func.value, ast.Name) and x.func.value.id == pname
+                and x.args and "int" in unparse(x.args[0]) for x in walk_no_nested(f.node))
+    ok = typed or later
+    ctx.ob(rule, f, f"the index array made from the list `{pname}` has an integer dtype (an empty list included)", ok,
+           f"`{unparse(n)[:60]}`" if ok else
+           f"`{unparse(n)[:60]}` gives a float64 array for the empty list: the empty set of positions then fails as an index "
+           "(IndexError: arrays used as indices must be of integer type) instead of leaving the operand unchanged", n, chain=chain)
